@@ -173,7 +173,7 @@ struct InterfaceMethod {
     template <typename Receiver, typename... Passthrough>
     Status<void> Dispatch(Receiver* receiver,
                           Passthrough&&... passthrough) const {
-      return Helper<typename FunctionTraits<Op>::Signature>::Dispatch(
+      return Helper<typename HandlerArgs<Op>::TrimmedSignature>::Dispatch(
           receiver, op, std::forward<Passthrough>(passthrough)...);
     }
   };
@@ -201,7 +201,7 @@ struct InterfaceMethod {
     template <typename Receiver, typename... Passthrough>
     Status<void> Dispatch(Receiver* receiver, Class* instance,
                           Passthrough&&... passthrough) const {
-      return Helper<typename FunctionTraits<Method>::Signature>::Dispatch(
+      return Helper<typename HandlerArgs<Method>::TrimmedSignature>::Dispatch(
           receiver, instance, method,
           std::forward<Passthrough>(passthrough)...);
     }
